@@ -157,7 +157,12 @@ pub fn eval_meta(c: &MetaCase) -> Outcome {
         o.fail("title", "title.unexpected", "(c)nam present although no title was configured");
     }
     if let Some(t) = c.ctime {
-        check_date(&mut o, &pw.movie, t);
+        if t < 253_402_300_800 {
+            check_date(&mut o, &pw.movie, t);
+        } else {
+            // beyond year 9999 the four-digit calendar form does not exist; the isolation clause below still applies
+            o.unconstrained.push("creation_time_beyond_year_9999".into());
+        }
     } else if !item(&pw.movie, b"\xa9day").is_empty() {
         o.fail("date", "date.unexpected", "(c)day present although no creation time was configured");
     }
@@ -263,7 +268,7 @@ pub fn meta_strategy(t: Tier) -> BoxedStrategy<MetaCase> {
         valid_case_strategy(mv, ma),
         proptest::option::weighted(0.6, prop_oneof![3 => "\\PC{0,40}", 2 => "[ -~]{0,60}", 1 => Just(String::new()), 1 => "\\PC{300,1500}", 1 => any::<String>(), 3 => crate::scenario::title_strategy(),
             1 => (proptest::sample::select(vec![240usize, 247, 248, 254, 255, 256, 257, 65_511, 65_519, 65_520, 65_527, 65_535, 65_536, 70_000]), proptest::sample::select(vec!['a', 'é', '€', '😀'])).prop_map(|(n, ch)| std::iter::repeat(ch).take(n / ch.len_utf8() + 1).collect::<String>())]),
-        proptest::option::weighted(0.5, prop_oneof![6 => 0u64..4_102_444_800, 4 => 0u64..253_402_300_800, 1 => Just(0u64), 1 => Just(86_399u64)]),
+        proptest::option::weighted(0.5, prop_oneof![6 => 0u64..4_102_444_800, 4 => 0u64..253_402_300_800, 1 => Just(0u64), 1 => Just(86_399u64), 1 => 253_402_300_800u64..=u64::MAX, 1 => 253_402_300_800u64..400_000_000_000]),
         proptest::option::weighted(0.6, prop_oneof![5 => "[a-z]{3}", 1 => "[A-Z]{3}", 1 => "[a-z]{0,2}", 1 => "[a-z0-9]{4,6}", 1 => "\\PC{1,4}"]),
     )
         .prop_map(|(base, mut title, ctime, lang)| {
@@ -511,6 +516,117 @@ pub fn eval_now(c: &(u8, bool)) -> Outcome {
     o
 }
 
+// ---- metadata configured through the command-line tool
+
+#[derive(Clone, Debug, Serialize, Deserialize, PartialEq, Eq, Hash)]
+pub struct CliMeta {
+    pub title: Option<String>,
+    pub lang: Option<String>,
+    pub audio: bool,
+}
+
+fn cli_cases(_t: Tier) -> Vec<CliMeta> {
+    let titles: Vec<&str> = vec![
+        "plain",
+        "My Holiday",
+        "\"My Holiday\"",
+        "'single quoted'",
+        "\"",
+        "\"\"",
+        "''",
+        "\"open only",
+        "close only'",
+        " leading and trailing ",
+        "tab\there",
+        "caf\u{e9} \u{65e5}\u{672c}\u{8a9e} \u{1f600}",
+        "a=b",
+        "C:\\videos\\clip",
+        "50% $HOME `x` ~",
+        "",
+        "\u{feff}bom",
+        "line\nbreak",
+    ];
+    let mut v = Vec::new();
+    for (i, t) in titles.iter().enumerate() {
+        v.push(CliMeta { title: Some(t.to_string()), lang: if i % 3 == 0 { Some(["deu", "zxx", "qaa", "eng"][i / 3 % 4].to_string()) } else { None }, audio: i % 4 == 1 });
+    }
+    for l in ["eng", "und", "fra", "zzz", "aaa"] {
+        v.push(CliMeta { title: None, lang: Some(l.to_string()), audio: l == "fra" });
+    }
+    v.push(CliMeta { title: None, lang: None, audio: true });
+    v
+}
+
+pub fn eval_cli(c: &CliMeta) -> Outcome {
+    use crate::props::c20::{case_dir, ensure_built, hex_text, run_cli};
+    let mut o = Outcome::default();
+    if let Err(e) = ensure_built() {
+        eprintln!("INFRA: {}", e);
+        std::process::exit(2);
+    }
+    let dir = case_dir();
+    let (vdata, _, _) = crate::contract::vframe(0, &crate::contract::VF { kind: crate::contract::VKind::KeyCfg, size: 40, shape: 0 }, 1);
+    let _ = std::fs::write(dir.join("video.hex"), hex_text(&vdata, 0));
+    let out = dir.join("out.mp4");
+    let mut args: Vec<String> = vec!["mux".into(), "--video".into(), dir.join("video.hex").to_string_lossy().to_string(), "--output".into(), out.to_string_lossy().to_string()];
+    for (k, v) in [("--width", "640"), ("--height", "480"), ("--fps", "30")] {
+        args.push(k.into());
+        args.push(v.into());
+    }
+    if c.audio {
+        let a = AdtsGene { protection_absent: true, profile: 1, sfi: 3, chan: 2, payload_len: 14, extra: 0, fill: 0, corrupt: 0, misc: 0 }.build(2).0;
+        let _ = std::fs::write(dir.join("audio.hex"), hex_text(&a, 0));
+        args.extend(["--audio".to_string(), dir.join("audio.hex").to_string_lossy().to_string(), "--sample-rate".into(), "48000".into(), "--channels".into(), "2".into()]);
+    }
+    if let Some(t) = &c.title {
+        args.push("--title".into());
+        args.push(t.clone());
+    }
+    if let Some(l) = &c.lang {
+        args.push("--language".into());
+        args.push(l.clone());
+    }
+    let p = match run_cli(&args, &dir) {
+        Ok(p) => p,
+        Err(e) => {
+            eprintln!("INFRA: {}", e);
+            std::process::exit(2);
+        }
+    };
+    let bytes = std::fs::read(&out).unwrap_or_default();
+    let _ = std::fs::remove_dir_all(&dir);
+    if p.code != Some(0) {
+        // whether the tool accepts the invocation is C20's statement
+        o.class("cli_did_not_succeed_not_judged(C20)");
+        return o;
+    }
+    let m = match parse_movie(&bytes) {
+        Ok((_, m)) => m,
+        Err(_) => {
+            o.class("unparseable_not_judged(C02)");
+            return o;
+        }
+    };
+    match &c.title {
+        Some(t) => check_title(&mut o, &m, t),
+        None => {
+            if m.udta_present {
+                o.fail("no_udta", "no_udta.cli", "udta emitted although neither --title nor a creation time was given");
+            }
+        }
+    }
+    let want: [u8; 3] = c.lang.as_ref().map(|l| [l.as_bytes()[0], l.as_bytes()[1], l.as_bytes()[2]]).unwrap_or(*b"und");
+    check_lang(&mut o, &m, &want, "cli");
+    for v in o.violations.iter_mut() {
+        v.sig = format!("{}:cli", v.sig);
+    }
+    o.nontrivial = c.title.as_ref().map(|t| !t.chars().all(|ch| ch.is_ascii_alphanumeric())).unwrap_or(false) || c.lang.as_ref().map(|l| l != "eng" && l != "und").unwrap_or(false);
+    if c.title.as_ref().map(|t| t.starts_with('"') || t.starts_with('\'')).unwrap_or(false) {
+        o.class("title_starts_with_a_quote");
+    }
+    o
+}
+
 pub fn def() -> PropertyDef {
     PropertyDef {
         fuzz_targets: &[],
@@ -528,6 +644,12 @@ pub fn def() -> PropertyDef {
                 cases: now_cases,
                 eval: eval_now,
                 note: "with_current_time() in each of the six positions of the Metadata with_* chain, with and without audio: title and language must survive, the date must be the system clock's reading during the call (+- 2 s)",
+            }),
+            Box::new(LSub {
+                name: "command_line",
+                cases: cli_cases,
+                eval: eval_cli,
+                note: "--title / --language given to the command-line tool (quoted, padded, multi-byte, empty, shell-looking titles): the (c)nam item must hold the argument's exact bytes and every mdhd the code",
             }),
             Box::new(PSub { name: "titles_and_isolation", quick: 8000, thorough: 250000, strat: meta_strategy, eval: eval_meta }),
             Box::new(ESub { name: "dates", run: run_dates, replay: replay_date }),
